@@ -71,7 +71,7 @@ PROPS["C06"] = dict(
     technique="Lean 4 proof (invariant by induction over operation sequences, canonicity by strong induction) + correspondence check + verified table checker on real dumps",
     jobs=[Job("bdd", 1500, 60000, size=6, size_thorough=7,
               relevant=heads(*OPS, "dump", "wfcheck", "classes", "alltt"), nontrivial=nt_bdd),
-          Job("persist", 400, 10000, size=5, size_thorough=6, relevant=heads("pop", "pjson", "prebuild", "pfinish", "wfcheck"),
+          Job("persist", 400, 10000, size=5, size_thorough=6, fsets=("default", "none"), relevant=heads("pop", "pjson", "prebuild", "prebuildstream", "pfinish", "wfcheck"),
               nontrivial=lambda st: int(st.get("trips", 0)) >= 1 and int(st.get("nodes", 0)) >= 3, label="reimport"),
           Job("adf", 300, 10000, size=6, extra=("sem",), relevant=heads("adopt", "adump", "wfcheck"), nontrivial=lambda st: int(st.get("nodes", 0)) >= 5, label="bridge"),
           Job("bdd", 4, 60, size=17, size_thorough=18, extra=("big",), relevant=heads(*OPS, "alltt", "dump", "wfcheck"),
@@ -399,7 +399,7 @@ PROPS["C18"] = dict(
 )
 
 
-PERSIST_HEADS = ("pop", "psem", "pq", "pjson", "prebuild", "pmemocheck", "pfinish", "wfcheck")
+PERSIST_HEADS = ("pop", "psem", "pq", "pjson", "prebuild", "prebuildstream", "pmemocheck", "pfinish", "wfcheck")
 
 
 def nt_persist(st):
@@ -507,7 +507,7 @@ PROPS["C14"] = dict(
                "compared with the original, the real private tables audited (pmemocheck), operations and semantics continued against a never-exported twin; CLI --export twice and --import in C15's runs.",
     level_note="Trusted: Lean kernel + standard axioms; serde_json and decimal parsing are assumptions observed by the runs.",
     technique="Lean 4 proof (rebuild = identity on well-formed tables; recomputed bookkeeping equals the invariant's) + correspondence check incl. audit of the real private tables",
-    jobs=[Job("persist", 600, 15000, size=5, size_thorough=6, fsets_thorough=("default", "none", "all", "off-v1-f0"),
+    jobs=[Job("persist", 600, 15000, size=5, size_thorough=6, fsets=("default", "none"), fsets_thorough=("default", "none", "all", "off-v1-f0"),
               relevant=heads(*PERSIST_HEADS), nontrivial=nt_persist),
           Job("adf", 60, 1500, size=5, extra=("cli",), timeout=900, needs_bins=True, relevant=heads("cliexport"),
               nontrivial=lambda st: int(st.get("n", 0)) >= 2, label="cli-export")],
